@@ -116,7 +116,10 @@ def make_env(cls: dict):
         elif spec[0] == "ClipObservation":
             env = W.ClipObservation(env)
         elif spec[0] == "RescaleObservation":
-            env = W.RescaleObservation(env, jnp.array(float(spec[1])), jnp.array(float(spec[2])))
+            if isinstance(spec[1], (list, tuple)):   # per-dimension targets, infinite where the inner space is unbounded
+                env = W.RescaleObservation(env, jnp.array([float(x) for x in spec[1]]), jnp.array([float(x) for x in spec[2]]))
+            else:
+                env = W.RescaleObservation(env, jnp.array(float(spec[1])), jnp.array(float(spec[2])))
         elif spec[0] == "Identity":
             env = W.Identity(env)
         elif spec[0] == "ClipReward":
